@@ -1039,3 +1039,72 @@ def blade_shift_is(vals, r1, r2, d):
     a, b = _A(vals[r1]), _A(vals[r2])
     if b[2] - a[2] != d: return 'result blade shifted by %d, predicted %d' % (b[2] - a[2], d)
     return None
+
+# ------------------------------------------------------------------ C01 whole-program walk
+from .prog import OPS as _OPS, reg_args as _reg_args
+
+_BLADE_MAX = 2 ** 40
+def _in_dom(x):
+    k = x[0]
+    if k == 'A': return x[2] <= _BLADE_MAX and canon_msg(x) is None
+    if k == 'G':
+        if x[3] > _BLADE_MAX or canon_msg(_A(x)) is not None or not fb.is_finite_bits(x[1]): return False
+        m = v(x[1])
+        return m == 0 or mp.mpf('1e-100') <= m <= mp.mpf('1e100')
+    if k == 'F': return fb.is_finite_bits(x[1])
+    if k == 'U': return x[1] <= _BLADE_MAX
+    if k == 'C': return all(_in_dom(('G',) + tuple(g)) for g in x[1])
+    if k == 'OG': return x[1] is None or _in_dom(('G',) + tuple(x[1]))
+    if k in ('P', 'E'): return False
+    return True
+
+_PANIC_RULE = {'GInv': 0, 'GNormalize': 0, 'GDiv': 1, 'GDivM': 1, 'TEPot': 1}   # operand (register arg index) whose zero magnitude is the documented panic
+
+@pred
+def c01_walk(vals, prog):
+    """every register produced from in-domain operands is canonical / finite / non-negative, and a
+    panic occurs exactly in the documented zero-magnitude cases"""
+    dom = []
+    for i, ins in enumerate(prog):
+        op, args = ins[0], ins[1:]
+        x = vals[i]
+        ra = _reg_args(op, args)
+        ok_in = all(a < i and dom[a] for a in ra)
+        dom.append(_in_dom(x))
+        if not ok_in or op in ('FImm', 'UImm'):
+            continue
+        gs = [vals[a] for a in ra if vals[a][0] == 'G']
+        prod = mp.mpf(1)
+        for g in gs: prod *= v(g[1])
+        if len(gs) >= 2 and prod != 0 and not (mp.mpf('1e-100') <= prod <= mp.mpf('1e100')):
+            continue                                    # intermediate product outside the domain: out of scope
+        want_panic = None
+        if op in _PANIC_RULE:
+            want_panic = v(vals[ra[_PANIC_RULE[op]]][1]) == 0
+        elif op == 'GTan':
+            # tan = sin / cos: panics exactly when the cosine gateway has zero magnitude (register i-1 by construction)
+            want_panic = (i > 0 and prog[i - 1][0] == 'GCos' and prog[i - 1][1] == args[0] and v(vals[i - 1][1]) == 0)
+        elif op == 'GInvCircle':
+            want_panic = (i > 0 and prog[i - 1][0] == 'GSub' and prog[i - 1][2:] == [args[0], args[1]] and v(vals[i - 1][1]) == 0)
+        elif op == 'CIndex':
+            want_panic = vals[ra[1]][1] >= len(vals[ra[0]][1])
+        if want_panic is not None:
+            if want_panic and x[0] != 'P': return 'r%d = %s: documented panic did not occur' % (i, op)
+            if not want_panic and x[0] == 'P': return 'r%d = %s: unexpected panic' % (i, op)
+            if want_panic: continue
+        k = x[0]
+        if k == 'P': return 'r%d = %s: unexpected panic on in-domain operands' % (i, op)
+        if k == 'A': m = canon_msg(x)
+        elif k == 'G': m = canon_msg(_A(x)) or mag_msg(x)
+        elif k == 'C':
+            m = None
+            for g in x[1]:
+                G = ('G',) + tuple(g)
+                m = canon_msg(_A(G)) or mag_msg(G)
+                if m: break
+        elif k == 'OG' and x[1] is not None:
+            G = ('G',) + tuple(x[1]); m = canon_msg(_A(G)) or mag_msg(G)
+        elif k == 'F': m = None if fb.is_finite_bits(x[1]) else 'float result not finite'
+        else: m = None
+        if m: return 'r%d = %s: %s' % (i, op, m)
+    return None
